@@ -64,7 +64,7 @@ static void const * toy_output(void * p, void * samples, size_t * n)
 }
 static void toy_flush(void * p) { ((toy_t *)p)->fl = 1; }
 static void toy_close(void * p) { toy_t * t = p; free(t->inq); free(t->outq); t->inq = t->outq = 0; }
-static double toy_delay(void * p) { toy_t * t = p; return (double)(t->in_len + (t->out_len - t->out_off)); }
+static double toy_delay(void * p) { toy_t * t = p; return (double)(t->in_len + (t->out_len - t->out_off)) + (t->fl? 1000 : 0); }  /* the flush latch shows in soxr_delay */
 static void toy_sizes(size_t * shared, size_t * channel) { *shared = 8; *channel = sizeof(toy_t); }
 static char const * toy_create(void * channel, void * shared, double io_ratio, soxr_quality_spec_t * q, soxr_runtime_spec_t * r, double scale)
 {
